@@ -275,7 +275,7 @@ func fpathEqualsDpathV2(r *ev.Run, every int) {
 					r.Violate(ev.Violation{Kind: "valid-vector-not-decoded", Case: map[string]any{"cvss": 2, "vector": full}, Observed: fmt.Sprint(err), Expected: "accepted"})
 					continue
 				}
-				if math.Float64bits(d.Score()) != math.Float64bits(m.Score()) || d.String() != m.String() || d.Severity() != m.Severity() {
+				if math.Float64bits(d.Score()+0) != math.Float64bits(m.Score()+0) || d.String() != m.String() || d.Severity() != m.Severity() {
 					r.Violate(ev.Violation{Kind: "assigned-fields-object-differs-from-decoded", Case: map[string]any{"cvss": 2, "decoder": "environmental", "vector": full, "path": "one decoded object whose exported base fields were re-assigned to this vector's values"},
 						Observed: fmt.Sprintf("%v %s %v", m.Score(), m.String(), m.Severity()), Expected: fmt.Sprintf("%v %s %v  (a fresh decode of the vector)", d.Score(), d.String(), d.Severity())})
 				}
